@@ -29,6 +29,15 @@ type hop struct {
 	Src       string // which API produced the observation
 }
 
+// gop is one committed write to a whole group: afterwards the group consists of exactly the
+// keys with Present[i] (all carrying Tag), nothing else.
+type gop struct {
+	Call, Ret int64
+	Group     int
+	Tag       string
+	Present   []bool
+}
+
 type view struct { // one point-in-time observation of a whole group
 	Call, Ret int64
 	Src       string
@@ -96,6 +105,7 @@ type history struct {
 	mu    sync.Mutex
 	hops  []hop
 	views []view
+	gops  []gop
 }
 
 func (h *history) add(x ...hop) {
@@ -188,19 +198,65 @@ func runConcurrent(r *lib.Run, col *collector, idx int, backend string) {
 				}
 				return nil
 			}
+			var subset []bool // nil: the whole group
 			record := func(c int64, src string, del bool) {
 				ret := h.clock.Add(1)
 				var hs []hop
-				for _, k := range g.keys {
+				present := make([]bool, len(g.keys))
+				for i, k := range g.keys {
 					x := hop{Call: c, Ret: ret, Key: k, Kind: 0, Val: tag, Src: src}
-					if del {
+					if del || (subset != nil && !subset[i]) {
 						x.Kind, x.Val = 1, ""
+					} else {
+						present[i] = true
 					}
 					hs = append(hs, x)
 				}
 				h.add(hs...)
+				h.mu.Lock()
+				h.gops = append(h.gops, gop{Call: c, Ret: ret, Group: gi, Tag: tag, Present: present})
+				h.mu.Unlock()
 			}
-			switch form := rng.IntN(9); form {
+			// replace the group by a subset of its keys in one batch: range delete + puts of the subset
+			fillSubset := func(w db.KeyValueWriter, rd db.KeyValueRangeDeleter) error {
+				subset = make([]bool, len(g.keys))
+				subset[rng.IntN(len(g.keys))] = true
+				for i := range subset {
+					if rng.IntN(2) == 0 {
+						subset[i] = true
+					}
+				}
+				if err := rd.DeleteRange([]byte(g.prefix), []byte(upper)); err != nil {
+					return err
+				}
+				for i, k := range g.keys {
+					if subset[i] {
+						if err := w.Put([]byte(k), []byte(tag)); err != nil {
+							return err
+						}
+					}
+				}
+				return nil
+			}
+			switch form := rng.IntN(12); form {
+			case 9, 10: // the group replaced by a subset of its keys, plain batch
+				bt := st.NewBatch()
+				err := fillSubset(bt, bt)
+				c := h.clock.Add(1)
+				if err == nil {
+					err = bt.Write()
+				}
+				record(c, "batch.Write(subset)", false)
+				if err != nil {
+					fatal("batch.Write(subset)", err)
+				}
+			case 11: // the same through the Update helper
+				c := h.clock.Add(1)
+				err := st.Update(func(ib db.IndexedBatch) error { return fillSubset(ib, ib) })
+				record(c, "store.Update(subset)", false)
+				if err != nil {
+					fatal("store.Update(subset)", err)
+				}
 			case 0, 1: // plain batch
 				bt := st.NewBatch()
 				err := fill(bt, bt, form == 1, tag)
@@ -501,12 +557,46 @@ func runConcurrent(r *lib.Run, col *collector, idx int, backend string) {
 		r.Count("conc.recorded_operations", len(hs))
 	}
 	torn := 0
+	sort.Slice(h.gops, func(i, j int) bool { return h.gops[i].Call < h.gops[j].Call })
 	for _, v := range h.views {
-		uniform := true
-		for _, x := range v.Vals {
-			if x != v.Vals[0] {
-				uniform = false
+		// A point-in-time view of a group must be the group as one of the admissible writes left
+		// it: the last group write that returned before the view was taken (or the initial empty
+		// group), or any later one that was called before the view's call returned. There is one
+		// writer, so the group writes are totally ordered.
+		var mine []gop
+		for _, o := range h.gops {
+			if o.Group == v.Group {
+				mine = append(mine, o)
 			}
+		}
+		lo := -1
+		for i, o := range mine {
+			if o.Ret < v.Call {
+				lo = i
+			}
+		}
+		matches := func(o *gop) bool {
+			for i, x := range v.Vals {
+				switch {
+				case o == nil || !o.Present[i]:
+					if x != "" {
+						return false
+					}
+				case x != o.Tag:
+					return false
+				}
+			}
+			return true
+		}
+		uniform := false
+		if lo == -1 && matches(nil) {
+			uniform = true
+		}
+		for i := max(lo, 0); i < len(mine) && !uniform; i++ {
+			if mine[i].Call > v.Ret {
+				break
+			}
+			uniform = matches(&mine[i])
 		}
 		if !uniform {
 			torn++
